@@ -116,7 +116,9 @@ def oracle(d):
             if int(rc) > 0:
                 if f.get("ok") not in ("1", "2"):
                     return "data: slot %s: %s" % (t[1], a)
-                if int(f["t1"]) - int(f["t0"]) != int(rc) * (2 if hr.get(t[1]) else 1):
+                adv = int(f["t1"]) - int(f["t0"])
+                # (at half rate: two positions per sample, one for the last sample of an odd-length link — C20's subject)
+                if (adv not in (2 * int(rc), 2 * int(rc) - 1)) if hr.get(t[1]) else (adv != int(rc)):
                     return "advance: " + a
         elif t[0] == "halfrate":
             hr[t[1]] = f.get("p") == "1"
